@@ -1,8 +1,11 @@
 #include <AIToolbox/MDP/Algorithms/DoubleQLearning.hpp>
 
+#include <AIToolbox/Seeder.hpp>
+
 namespace AIToolbox::MDP {
     DoubleQLearning::DoubleQLearning(const size_t ss, const size_t aa, const double discount, const double alpha) :
-            S(ss), A(aa), discount_(discount), dist_(0.5),
+            S(ss), A(aa), discount_(discount),
+            rand_(Seeder::getSeed()), dist_(0.5),
             qa_(makeQFunction(S, A)),
             qc_(makeQFunction(S, A))
     {
